@@ -671,6 +671,84 @@ def w8(rep, f_foam):
                           % (t, sorted(map(str, chooser[t])), sorted(map(str, writer[letter]))))
 
 
+def w9(rep):
+    """Text form (.fm): the string writer escapes exactly what the string reader treats specially."""
+    f = common.extract("sexpr.c", all_trees=True)
+    # syntax table: character -> class, from the assignments sxiIoTable[ch] = CLASS
+    table = {}
+    for fn in f.funcs.values():
+        if "body" not in fn:
+            continue
+        for x in walk(fn["body"]):
+            if x["k"] == "BinaryOperator" and x["op"] == "=":
+                l = strip(x["c"][0])
+                if l is not None and l["k"] == "ArraySubscriptExpr" and strip(l["c"][0]) is not None and strip(l["c"][0]).get("n") == "sxiIoTable":
+                    ch, cl = const_value(l["c"][1]), common.enum_name(x["c"][1])
+                    if ch is not None and cl:
+                        table.setdefault(cl, set()).add(ch)
+
+    def special_chars(node, subject_pred):
+        out = set()
+        for y in walk(node):
+            if y["k"] == "BinaryOperator" and y["op"] in ("==", "!="):
+                a, b = strip(y["c"][0]), strip(y["c"][1])
+                v = const_value(b)
+                if v is not None and 0 < v < 256 and subject_pred(a):
+                    out.add(v)
+                cl = common.enum_name(y["c"][1])
+                if cl in table and a is not None and a["k"] in ("CallExpr", "ArraySubscriptExpr"):
+                    out |= table[cl]
+        return out
+    # reader: the loop of the '"' case
+    rd = None
+    for name, fn in f.funcs.items():
+        if "body" not in fn:
+            continue
+        for sw in [x for x in walk(fn["body"]) if x["k"] == "SwitchStmt"]:
+            try:
+                groups = common.switch_cases(sw)
+            except AnalysisBroken:
+                continue
+            for g in groups:
+                if any(l[1] == ord('"') for l in g["labels"]) and any(c.get("callee") == "sxiFrString" for st in g["stmts"] for c in calls(st)):
+                    loops = [y for st in g["stmts"] for y in walk(st) if y["k"] in ("ForStmt", "WhileStmt", "DoStmt")]
+                    if loops:
+                        rd = (name, loops[0])
+    if rd is None:
+        raise AnalysisBroken("sexpr.c: the reader's string case (case '\"' with its loop) was not found")
+    rset = special_chars(rd[1], lambda a: a is not None and a["k"] == "DeclRefExpr")
+    # writer: case SX_String of sxiWrUnscanToken
+    wfn = f.func("sxiWrUnscanToken")
+    wcase = None
+    for sw in [x for x in walk(wfn["body"]) if x["k"] == "SwitchStmt"]:
+        for g in common.switch_cases(sw):
+            if any(l[0] == "SX_String" for l in g["labels"]):
+                wcase = g
+    if wcase is None:
+        raise AnalysisBroken("sxiWrUnscanToken: case SX_String not found")
+    wset = set()
+    for st in wcase["stmts"]:
+        wset |= special_chars(st, lambda a: a is not None and a["k"] == "UnaryOperator" and a["op"] == "*")
+    emitted = set()
+    for st in wcase["stmts"]:
+        for y in walk(st):
+            if y["k"] == "IfStmt" and y["c"][1] is not None:
+                for z in walk(y["c"][1]):
+                    if z["k"] == "CharacterLiteral":
+                        emitted.add(z["v"])
+    esc = rset - {ord('"')}
+    show = lambda cs: sorted(chr(c) for c in cs)
+    if len(rset) < 2:
+        raise AnalysisBroken("sexpr.c: reader's special characters inside a string not recognised (%s)" % show(rset))
+    if rset <= wset and emitted == esc:
+        rep.ok("W9", "sexpr-string:escapes", sample={"reader_special": show(rset), "writer_escapes": show(wset), "with": show(emitted)})
+    else:
+        rep.violation("W9", "sexpr-string:escapes", "sexpr.c:%d (sxiWrUnscanToken case SX_String)" % wcase["line"],
+                      "inside a string the reader gives a special meaning to %s, the writer escapes %s with %s: a name containing an "
+                      "unescaped special character (operators such as \\/ or /\\) is written to .fm in a form that reads back as a different "
+                      "string or not at all" % (show(rset), show(wset), show(emitted)))
+
+
 WALKERS = ["foamEqual", "foamHash", "foamCopy", "foamFree", "foamToSExpr", "foamFrSExpr", "foamAuditAll", "foamCopyNode"]
 
 
@@ -1057,6 +1135,7 @@ def run(tier, only=None):
     w5(rep, f_foam, alphabet)
     w7(rep, f_foam)
     w8(rep, f_foam)
+    w9(rep)
     f_sefo = common.extract("sefo.c", all_trees=True)
     w6(rep, f_sefo, widths)
     rep.assumptions += ["W7: for Lex/RElt/RRElt/EElt/IRElt/TRElt nodes the letter i of argf marks exactly the fields written with the "
